@@ -124,7 +124,7 @@ def main(tier):
         phase, fabric = kernel.FAB[c["fab"]]
         A, L, f = kernel.case_inputs(c)
         growth = None
-        if len(f) > 1 and not kernel.flagged(c):
+        if len(f) > 1 and not kernel.flagged(c) and not c.get("limit"):
             env = dict(PAR)
             for defs in c["defs"]:
                 kernel.evalterm.run_program(defs, env)
